@@ -519,6 +519,40 @@ def boundary_sample(vendor, sizes_with_phantom, rng, nbatches=14):
     return nums
 
 
+def huge_manifest_cases(rng, n):
+    """batch counts so large that cumulative totals lie around 2**53 .. 2**62 (beyond exact float64 integers), a few tiny
+    and empty batches between them; lookups at batch boundaries and at neighbouring numbers n, n+1 beyond 2**53.
+    Counts are int64 or Python ints (object); the oracle works in exact integers and is size-independent."""
+    cases = []
+    for _ in range(n):
+        vendor = rng.choice("DH")
+        nb = rng.randint(3, 12)
+        top = rng.choice([2 ** 54, 2 ** 57, 2 ** 60, 2 ** 61])
+        sizes = []
+        for j in range(nb):
+            r = rng.random()
+            sizes.append(0 if r < 0.15 else rng.randint(1, 3) if r < 0.35 else rng.randint(top // (4 * nb), top // nb) | 1)
+        if max(sizes) < 2 ** 50:
+            sizes[rng.randrange(nb)] = top // 2 + 1
+        total = sum(sizes)
+        mx = total + rng.choice([0, 1, 1, 7, 50, 2 ** 53 + 1, rng.randint(2 ** 40, 2 ** 58)])
+        rows = [{"cart": 5000 + i, "tray": 7000 + i, "tab": 1 + i % 4, "batch": 9 + i, "size": sz} for i, sz in enumerate(sizes)]
+        lo = 1 if vendor == "D" else 0
+        allsizes = sizes + ([mx - total] if mx > total else [])
+        s1 = boundary_sample(vendor, allsizes, rng, 8)
+        near = [x for x in (2 ** 53 - 1, 2 ** 53, 2 ** 53 + 1, 2 ** 53 + 2, 2 ** 53 + 3, mx + lo - 1, mx + lo - 2, mx + lo - 3)
+                if lo <= x < lo + mx]
+        x0 = rng.randint(min(2 ** 53, mx // 2), max(mx - 4, min(2 ** 53, mx // 2))) | 1
+        near += [x for x in (x0, x0 + 1, x0 + 2) if lo <= x < lo + mx]
+        near = list(dict.fromkeys(near))
+        rng.shuffle(near)
+        rep = gen_rep(rng)
+        rep["size_dtype"] = rng.choice(["int64", "object"])
+        rep["sample_kind"] = rng.choice(["list", "list", "tuple", "ndarray", "npints"])
+        cases.append(run_manifest(vendor, rows, mx, rng.choice([total, total - 1]), [s1, near], rng, rep=rep))
+    return cases
+
+
 def large_manifest_cases(rng, n):
     cases = []
     for _ in range(n):
@@ -758,6 +792,9 @@ def run(ctx, res):
 
     # (e) manifests of real size: oracle on the implementation only (size-independent), nothing sent to Coq
     large = large_manifest_cases(rng, ctx.n(14, 120))
+    huge = huge_manifest_cases(rng, ctx.n(8, 60))     # cumulative totals around 2**53 .. 2**62
+    stats["huge_manifests"] = len(huge)
+    large += huge
     res.evaluations += len(large)
     stats["large_manifests"] = len(large)
     stats["large_cards_max"] = max(sum(r["size"] for r in c["rows"]) for c in large)
@@ -802,7 +839,8 @@ def run(ctx, res):
                 "samples, occasionally a number beyond the range, a repeated number, colliding batch labels; (d) sample_from_cvrs "
                 "on CVR lists matching the manifest (some without a batch, phantoms, bad indices, repeats); (e) ORACLE ONLY: manifests "
                 "of 2e5..1.5e6 cards in 100..400 batches over 10+ tabulators with numeric labels of differing digit counts, bound = total / "
-                "total+1,7,50 / total+1e4..2e5 / refusals, lookups spot-checked at batch boundaries incl. first/last phantom. Non-trivial = at least "
+                "total+1,7,50 / total+1e4..2e5 / refusals, lookups spot-checked at batch boundaries incl. first/last phantom; and manifests whose "
+                "cumulative totals lie around 2**53..2**62 (int64 / Python-int counts) with neighbouring numbers n, n+1 beyond 2**53. Non-trivial = at least "
                 "two batches or an empty batch or a phantom batch (manifests), at least two sampled CVRs (from_cvrs); distinct inputs")
     res.samples = [man_json(c) for c in cases[5:7]] + [man_json(c) for c in cases[-2:]] + [cvr_json(c) for c in ccases[:2]]
     for key in ("index", "label_dtype", "size_dtype", "sample_kind"):
